@@ -19,3 +19,25 @@ type Prop struct {
 var Registry = map[string]*Prop{}
 
 func register(p *Prop) { Registry[p.ID] = p }
+
+// checkShellUses records one obligation per function that constructs shell objects (R6.5 / R11.5).
+func checkShellUses(c *engine.Ctx, rule string, only func(name string) bool) {
+	for _, fn := range c.Prog.RepoFuncs() {
+		name := engine.FuncName(fn)
+		if only != nil && !only(name) {
+			continue
+		}
+		uses, ctors := engine.UnpopulatedShellUses(fn)
+		if ctors == 0 {
+			continue
+		}
+		if len(uses) == 0 {
+			c.Ob(rule, name+"#shells", fn.Pos(), true, "empty keyed objects are only handed to the client or read after a successful client call filled them in", "")
+			continue
+		}
+		for _, u := range uses {
+			c.Ob(rule, name+"#shell-read("+u.What+")", u.Use.Pos(), false, "an object that only carries its key is read as if it were the live object",
+				"created at "+c.Prog.Pos(u.Shell.Pos())+"; "+u.What+" is reachable without a successful client Get/Patch/Update/Create on it")
+		}
+	}
+}
